@@ -221,6 +221,23 @@ func funcNameTable(fn *ssa.Function) map[string]string {
 		}
 	}
 	out := map[string]string{}
+	// shape counters (not locals): how many loops the function has and how often it calls what -- used to
+	// tell "a loop / a call site moved into a helper" from "the helper brought a new one" (loopRef,
+	// virtualOrdinal)
+	out["__loops__"] = fmt.Sprint(countLoops(fn))
+	calls := map[string]int{}
+	for v, s := range d.callOrd {
+		_ = v
+		if i := strings.LastIndex(s, "#"); i > 5 {
+			calls[s[len("call:"):i]]++
+		}
+	}
+	var cl []string
+	for c, n := range calls {
+		cl = append(cl, fmt.Sprintf("%s=%d", c, n))
+	}
+	sort.Strings(cl)
+	out["__calls__"] = strings.Join(cl, ";")
 	for n, ds := range defs {
 		var l []string
 		for s := range ds {
@@ -1058,4 +1075,55 @@ func recordedFieldIndex(st *types.Struct, name string) int {
 		return best
 	}
 	return -1
+}
+
+func countLoops(fn *ssa.Function) int {
+	heads := map[int]bool{}
+	for _, b := range fn.Blocks {
+		for _, succ := range b.Succs {
+			if succ.Dominates(b) {
+				heads[succ.Index] = true
+			}
+		}
+	}
+	return len(heads)
+}
+
+// recordedLoops: how many loops the recorded function had (-1: not recorded).
+func recordedLoops(key string) int {
+	t := loadBaseNames()[key]
+	if t == nil {
+		return -1
+	}
+	n := -1
+	fmt.Sscan(t["__loops__"], &n)
+	return n
+}
+
+// recordedCalls: how many call sites matching pat the recorded function had (-1: not recorded).
+func recordedCalls(key, pat string) int {
+	t := loadBaseNames()[key]
+	if t == nil {
+		return -1
+	}
+	if _, ok := t["__calls__"]; !ok {
+		return -1
+	}
+	total := 0
+	for _, e := range strings.Split(t["__calls__"], ";") {
+		i := strings.LastIndex(e, "=")
+		if i < 0 {
+			continue
+		}
+		callee := e[:i]
+		if strings.HasPrefix(callee, "self$") {
+			callee = key + callee[4:]
+		}
+		n := 0
+		fmt.Sscan(e[i+1:], &n)
+		if matchCallee(pat, callee) {
+			total += n
+		}
+	}
+	return total
 }
